@@ -553,6 +553,12 @@ func (e *Engine) posOf(c *Config) string {
 		return "?"
 	}
 	f := c.top()
+	if f.pending != nil && f.pending.Pos.IsValid() {
+		p := e.prog.Fset.Position(f.pending.Pos)
+		if p.IsValid() {
+			return fmt.Sprintf("%s:%d", shortFile(p.Filename), p.Line)
+		}
+	}
 	if f.idx < len(f.blk.Instrs) {
 		p := e.prog.Fset.Position(f.blk.Instrs[f.idx].Pos())
 		if p.IsValid() {
